@@ -99,15 +99,46 @@ def logZ (Lx Ly Lz : Nat) : List Op :=
   ((pyRange2 2 (2*Ly)).map fun y =>
     dictOf (((pyRange2 1 (2*Lz)).map fun z => [0, 0, z]) ++ ((pyRange2 1 (2*Lz)).map fun z => [0, y, z])) Pauli.Z)
 
-/-- `get_deformation(location, deformation_name, deformation_axis)` (`none` = ValueError),
+/-- body of `get_deformation` for a given value of `deformation_axis` (`none` = ValueError),
     checks in the order of the code -/
-def getDeformation (name axis : String) (loc : Coord) : Option PauliMap :=
+def getDeformationAt (name axis : String) (loc : Coord) : Option PauliMap :=
   if !(["x", "y", "z"].contains axis) then none
   else if name == "XZZX" then
     match qubitAxis loc with
     | none => none
     | some a => some (if a == axis then PauliMap.swapXZ else PauliMap.id)
   else none
+
+/-- `get_deformation(location, deformation_name, deformation_axis='z')` (`none` = ValueError);
+    `axis = none`: the caller does not pass `deformation_axis`, the signature default `'z'` applies -/
+def getDeformation (name : String) (axis : Option String) (loc : Coord) : Option PauliMap :=
+  getDeformationAt name (axis.getD "z") loc
+
+/-! ### the explicit independent family of `n − k` generators of the rank clause
+(`C01XCubeCode.generators_independent`, proved in `Proofs/LatXCubeCodeRank1..3.lean`); printed by the
+driver op `rankfamily` and evaluated on the implementation's parity-check matrix on every run -/
+
+/-- selected cubes (Z-type; `Lx·Ly·Lz − (Lx + Ly + Lz) + 2` of them): all cubes with at most one
+    coordinate equal to 1 -/
+def selCubes (Lx Ly Lz : Nat) : List Coord :=
+  grid3 (pyRange2 1 (2*Lx)) (pyRange2 3 (2*Ly)) (pyRange2 3 (2*Lz)) (fun _ _ _ => true) ++
+  (grid3 (pyRange2 3 (2*Lx)) [1] (pyRange2 3 (2*Lz)) (fun _ _ _ => true) ++
+   grid3 (pyRange2 3 (2*Lx)) (pyRange2 3 (2*Ly)) [1] (fun _ _ _ => true))
+
+/-- vertices of the selected axis-0 operators -/
+def selFaces0 (Lx Ly Lz : Nat) : List Coord :=
+  grid3 (pyRange2 0 (2*Lx)) (pyRange2 2 (2*Ly)) (pyRange2 0 (2*Lz)) (fun _ _ _ => true) ++
+  grid3 (pyRange2 2 (2*Lx)) [0] (pyRange2 2 (2*Lz)) (fun _ _ _ => true)
+
+/-- vertices of the selected axis-1 operators -/
+def selFaces1 (Lx Ly Lz : Nat) : List Coord :=
+  grid3 (pyRange2 2 (2*Lx)) (pyRange2 0 (2*Ly)) (pyRange2 0 (2*Lz)) (fun _ _ _ => true) ++
+  grid3 [0] (pyRange2 0 (2*Ly)) (pyRange2 2 (2*Lz)) (fun _ _ _ => true)
+
+/-- the selected family: cubes, then axis-0 and axis-1 vertex operators (none of axis 2) -/
+def selStabs (Lx Ly Lz : Nat) : List Coord :=
+  selCubes Lx Ly Lz ++
+    ((selFaces0 Lx Ly Lz).map (fun c => (0 : Int) :: c) ++ (selFaces1 Lx Ly Lz).map (fun c => (1 : Int) :: c))
 
 def lattice (Lx Ly Lz : Nat) : Lattice :=
   { qubits := qubits Lx Ly Lz, stabs := stabs Lx Ly Lz, getStab := getStab Lx Ly Lz,
